@@ -2,6 +2,7 @@ import Driver.Util
 import InfluxVerif.Model.Codec.Int
 import InfluxVerif.Model.Codec.Bool
 import InfluxVerif.Model.Codec.Wal
+import InfluxVerif.Model.Codec.Float
 namespace Driver.C13
 open InfluxVerif.Codec
 
@@ -41,6 +42,13 @@ def handle (line : String) : String :=
   | ["benc", bs] => match bits? bs with | some l => s!"ok {natHex (boolEncode l)}" | none => "bad-op"
   | ["bdec", h] => match hexNat? h with
     | some b => (match boolDecode b with | some l => s!"ok {showBits l}" | none => "err")
+    | none => "bad-op"
+  -- float blocks: values are float64 bit patterns in decimal ("-" = no value)
+  | ["fenc", xs] => match (if xs = "-" then some [] else natsCsv? xs) with
+    | some l => if l.all (· < M64) then optBytes (Float.encode l) else "bad-op"
+    | none => "bad-op"
+  | ["fdec", h] => match (if h = "-" then some [] else hexNat? h) with
+    | some b => optNats (Float.decode b)
     | none => "bad-op"
   | ["s8s", xs] => match natsCsv? xs with | some l => optNats (s8bEncodeStream l) | none => "bad-op"
   | ["s8a", xs] => match natsCsv? xs with | some l => optNats (s8bEncodeAll l) | none => "bad-op"
